@@ -39,6 +39,15 @@ Theorem C20_time_line : forall h o, event_manager h = Ok o ->
 Proof. exact em_time_line. Qed.
 Print Assumptions C20_time_line.
 
+(* The order inside a time point is the file order (the sort is stable): a time point holds what the
+   rows of that time hold after Delay shifting -- first the rows without their Delay groups in file
+   order, then the Delay-shifted groups in file order. *)
+Theorem C20_time_point_order : forall h o i r,
+  event_manager h = Ok o -> nth_error (o_rows o) i = Some r -> time_point (o_rows o) i ->
+  r_items r = concat (map r_items (filter (same_onset (r_onset r)) (shifted_rows h))).
+Proof. exact time_point_items. Qed.
+Print Assumptions C20_time_point_order.
+
 (* Each started process is listed at its start point: the events of row i are exactly its Onset
    groups followed by its Duration groups, in file order, with start index i and the row's time;
    [base] lists the same events; and there are no other events anywhere. *)
